@@ -82,7 +82,10 @@ def run(rep, rng, tier, replay=None):
             continue
         rep.count([c["edges"], c["signature"], c["D"]], len(c["edges"]) >= 3)
         small = dict(c, ops=c["ops"][:1])
-        bad = check_shape(json.loads(o["json_text"]), c, tm)      # python keeps the order of the text
+        try:
+            bad = check_shape(json.loads(o["json_text"]), c, tm)      # python keeps the order of the text
+        except Exception as ex:                                       # another serialised layout altogether
+            bad = ["the serialised document does not have the model's layout (%s: %s)" % (type(ex).__name__, str(ex)[:80])]
         for cat, msg in TC.diff_tables(c, ti, tm):
             bad.append(msg)
         if bad:
